@@ -34,15 +34,17 @@ def render_file(states, base):
         name = "e%d" % k
         lines.append("  subroutine s%d(%s)" % (k, name if st["dummy"] else ""))
         hdr = len(lines) - 1
-        if st["doc"] in ("before", "beforeBlank"):
+        if st["doc"] in ("before", "beforeBlank", "beforeComment"):
             lines.append("    !> doc own %s" % name)
             if st["doc"] == "beforeBlank":
                 lines.append("")
         dl = "    " + decl_line(st, k)
-        if st["doc"] == "trailing":
+        if st["doc"] in ("trailing", "trailingComment"):
             dl += " !< doc own %s" % name
         lines.append(dl)
         dln = len(lines) - 1
+        if st["doc"] in ("trailingComment", "beforeComment"):
+            lines.append("    ! an ordinary comment, not documentation")
         if st["doc"] == "after":
             lines.append("    !! doc own %s" % name)
         lines.append("    integer :: nb%d !< doc nb%d" % (k, k))
@@ -171,7 +173,7 @@ ARGTXT = {"plain": "x1", "nested": "f(1, 2)", "string": "'a,b'", "kw2": "p2=y", 
 
 def check_calls(states):
     hdr = ["module mc", "  implicit none", "contains", "  integer function f(a, b)", "    integer :: a, b", "    f = a + b", "  end function f",
-           "  subroutine tgt(p1, p2, p3)", "    integer :: p1", "    integer, optional :: p2", "    character(len=*), optional :: p3", "  end subroutine tgt",
+           "  subroutine tgt(p1, p2, p3)", "    integer :: p1", "    integer :: p2", "    character(len=*), optional :: p3", "  end subroutine tgt",
            "  subroutine caller()", "    integer :: x1, y", "    character(len=3) :: z"]
     lines = list(hdr)
     sites = []
